@@ -491,7 +491,21 @@ def c15_f(ctx: Ctx):
     # the job list: the local that _clone_or_sync is mapped over (parallel branch) / iterated with (sequential branch)
     par0 = [n for n in body_nodes(sp) if isinstance(n, ast.Call) and isinstance(n.func, ast.Attribute) and n.func.attr in ("imap", "map", "imap_unordered")
             and len(n.args) >= 2 and canon(n.args[0]) == "_clone_or_sync"]
-    JV = par0[0].args[1].id if par0 and isinstance(par0[0].args[1], ast.Name) else "jobs_to_sync"
+    JV = par0[0].args[1].id if par0 and isinstance(par0[0].args[1], ast.Name) else None
+    if JV is None:
+        # fall back to the sequential branch: the iterable of the loop that calls _clone_or_sync(...)
+        pm0 = ctx.parents(sp)
+        for c0 in [n for n in body_nodes(sp) if isinstance(n, ast.Call) and ((isinstance(n.func, ast.Name) and n.func.id == "_clone_or_sync")
+                                                                          or any(isinstance(a, ast.Name) and a.id == "_clone_or_sync" for a in n.args))]:
+            cur = pm0.get(id(c0))
+            while cur is not None and not isinstance(cur, ast.For):
+                cur = pm0.get(id(cur))
+            if cur is not None:
+                nm = [x.id for x in ast.walk(cur.iter) if isinstance(x, ast.Name)]
+                if nm:
+                    JV = nm[-1]
+                    break
+    JV = JV or "jobs_to_sync"
     assigns = [n for n in body_nodes(sp) if isinstance(n, ast.Assign) and any(isinstance(t, ast.Name) and t.id == JV for t in n.targets)]
     if not assigns:
         return [ctx.inc(R, sp, sp.node, "the list of jobs to synchronise was not found")]
